@@ -121,7 +121,11 @@ class World:
         try:
             if persist:
                 await s.close_service()
-            elif s.websocket is not None:
+        except BaseException:
+            pass
+        try:
+            # process exit: whatever is still open is dropped by the OS
+            if s.websocket is not None and not s.websocket.closed:
                 s.websocket.transport.abort()
         except BaseException:
             pass
@@ -172,7 +176,8 @@ class World:
         finally:
             if not keep:
                 try:
-                    await self.drop_client()
+                    # commands.py closes the service (which persists the flags) only after the commands that connect
+                    await self.drop_client(persist=op in ("upconfig", "upindex", "search"))
                 except Exception:
                     pass
         return r
